@@ -9,8 +9,8 @@ import (
 
 // Decls accumulates the SMT declarations used by the queries of one verification unit.
 type Decls struct {
-	order   []string          // declaration text in order
-	seen    map[string]bool   // by symbol
+	order   []string        // declaration text in order
+	seen    map[string]bool // by symbol
 	structs map[string]*StructInfo
 	consts  map[string]string // const name -> sort
 	n       int
@@ -244,7 +244,7 @@ func (d *Decls) Zero(t types.Type) Term {
 			return app("mk_"+si.Sort, as...)
 		}
 		if a, ok := types.Unalias(t).Underlying().(*types.Array); ok {
-			return fmt.Sprintf("((as const %s) %s)", s, d.Zero(a.Elem()))
+			return d.ConstArray(s, d.Zero(a.Elem()))
 		}
 		return "0"
 	}
@@ -330,4 +330,44 @@ func (d *Decls) FuncID(key string) int {
 	n := len(d.funcIDs) + 1
 	d.funcIDs[key] = n
 	return n
+}
+
+// ConstArray returns the constant array of the given sort. Solvers accept "as const" only with a
+// value; for other element terms (str_empty, ...) a named array with a defining axiom is used.
+func (d *Decls) ConstArray(sort string, elem Term) Term {
+	v := literalValue(elem)
+	if v != "" {
+		return fmt.Sprintf("((as const %s) %s)", sort, v)
+	}
+	name := "constarr!" + sanitize(sort+"_"+elem)
+	ks := "Int"
+	if _, args := topArgs(sort); len(args) == 2 {
+		ks = args[0]
+	}
+	if !d.seen[name] {
+		d.add(name, fmt.Sprintf("(declare-const %s %s)\n(assert (forall ((i "+ks+")) (! (= (select %s i) %s) :pattern ((select %s i)))))", name, sort, name, elem, name))
+	}
+	return name
+}
+
+// literalValue expands the prelude's defined constants so that the term is a value; "" if it is not one.
+func literalValue(t Term) Term {
+	r := strings.NewReplacer("nilslice", "(mkslice (mkref 0 pnil) 0 0 0)", "niliface", "(mkiface 0 (mkref 0 pnil))")
+	t = r.Replace(t)
+	// "nil" as a whole token
+	var b strings.Builder
+	for i := 0; i < len(t); {
+		if strings.HasPrefix(t[i:], "nil") && (i == 0 || t[i-1] == ' ' || t[i-1] == '(') && (i+3 == len(t) || t[i+3] == ' ' || t[i+3] == ')') {
+			b.WriteString("(mkref 0 pnil)")
+			i += 3
+			continue
+		}
+		b.WriteByte(t[i])
+		i++
+	}
+	t = b.String()
+	if strings.Contains(t, "str_empty") || strings.Contains(t, "!") {
+		return ""
+	}
+	return t
 }
